@@ -456,7 +456,7 @@ func (g *structGen) sliceField(name string) (desc.F, desc.V) {
 	for i := 0; i < n; i++ {
 		v.E = append(v.E, genScalar(g.t, ek, "elem", true))
 	}
-	if n > 0 && rapid.IntRange(0, 39).Draw(g.t, "bulk") == 0 {
+	if n > 0 && rapid.IntRange(0, 39).Draw(g.t, "bulk") == 23 {
 		// a payload: ten thousand and more elements (counters and buffers inside the walker see them all)
 		if rapid.Bool().Draw(g.t, "bulkBytes") {
 			ek = "uint8"
@@ -743,7 +743,7 @@ func (g *structGen) genValueFor(ty desc.T, depth int) desc.V {
 		for i := 0; i < n; i++ {
 			v.E = append(v.E, g.genValueFor(*ty.Elem, depth+1))
 		}
-		if ty.K == "slice" && n > 0 && ty.Elem.Elem == nil && ty.Elem.K != "struct" && ty.Elem.K != "named" && rapid.IntRange(0, 7).Draw(g.t, "vBulk") == 0 {
+		if ty.K == "slice" && n > 0 && ty.Elem.Elem == nil && ty.Elem.K != "struct" && ty.Elem.K != "named" && rapid.IntRange(0, 39).Draw(g.t, "vBulk") == 17 {
 			// a payload: ten thousand and more scalar elements
 			unit := v.E
 			for total := rapid.SampledFrom([]int{10001, 12000, 16384, 20000}).Draw(g.t, "vBulkLen"); len(v.E) < total; {
